@@ -108,6 +108,13 @@ def sources(tier, seed, ctx):
             for pos, v in zip(rng.sample(range(16), 3), (rng.randint(0, 1), rng.randint(0, 1), rng.randint(0, 1))):
                 mt[pos // 8][pos % 8] = v
             srcs.append({'k': 'models', 'db': name, 'models': [mt]})
+        # ... three outputs, 13 don't-cares, and the very first don't-care decides: with it False (True) the first output is
+        # a constant, otherwise it needs gates - the smallest completion lies in the first (last) half of the enumeration
+        for first_rest in (0, 1):
+            for j in range(1 if tier == 'quick' else 4):
+                out2 = [2, 2, 2, 2] + [rng.randint(0, 1) for _ in range(4)]
+                rng.shuffle(out2)
+                srcs.append({'k': 'models', 'db': name, 'models': [[[2] + [first_rest] * 7, [2] * 8, out2]]})
     # the size measure of the don't-care lookup is a parameter (exclusion_list): the documented default, nothing
     # excluded, only inputs, and lists under which some stored circuits measure 0 (parity / conjunction gates free)
     EXCL = [[], ['INPUT'], ['INPUT', 'NOT', 'XOR', 'NXOR'], ['INPUT', 'AND', 'OR', 'NAND', 'NOR'], ['INPUT', 'NOT', 'IFF', 'AND']]
